@@ -22,7 +22,8 @@ Kinds == {"f", "s", "-"}
 Pat1 == [0..(Period - 1) -> Kinds]
 Pat2 == IF Q THEN {<<"f","f","f","f">>, <<"-","f","s","-">>} ELSE {<<"f","f","f","f">>, <<"-","f","s","-">>, <<"-","-","-","-">>}
 NStepsSet == IF Q THEN {1, 4, 12, 23} ELSE {1, 4, 12, 23, 35, 101}
-ValPats == {"pos", "mixed"}
+\* "late": both series of m start at tick 11 only - the first internal batch of 10 steps has no sample at all
+ValPats == {"pos", "mixed", "late"}
 LBs == IF Q THEN {1} ELSE {1, 3}
 
 VARIABLE g
@@ -36,7 +37,7 @@ KindAt(x, j, u) == IF x.vp = "mixed" /\ j = 1 THEN
 ValAt(x, j, u) == IF x.vp = "mixed" THEN (IF j = 1 THEN (u % 5) - 2 ELSE 3 - (u % 4)) ELSE 2 * j + (u % 3)
 PatOf(x, j) == IF j = 1 THEN [u \in 1..Period |-> x.p1[u - 1]] ELSE x.p2
 Span(x) == IF x.n = 1 THEN 8 ELSE x.n
-SmpOf(x, j) == LET ticks == SelectSeq([u \in 1..Span(x) |-> u - 1], LAMBDA u : PatOf(x, j)[(u % Period) + 1] # "-")
+SmpOf(x, j) == LET ticks == SelectSeq([u \in 1..Span(x) |-> u - 1], LAMBDA u : PatOf(x, j)[(u % Period) + 1] # "-" /\ (x.vp = "late" => u >= 11))
                IN [i \in 1..Len(ticks) |->
                      LET u == ticks[i] k == PatOf(x, j)[(u % Period) + 1] IN
                      Smp(u, IF k = "s" THEN "s" ELSE KindAt(x, j, u), ValAt(x, j, u))]
@@ -70,10 +71,14 @@ Shapes == <<
   "clamp_lit", "clamp_inv", "clamp_ps", "clamp_time", "clampmin_lit", "clampmin_ps", "clampmax_time", "clampmax_pin_time", "clampmin_pin_ps",
   "scalar_one", "scalar_two", "scalar_none", "scalar_arith", "vector_lit", "vector_time", "vector_ps",
   "time", "pi", "num", "scalar_scalar", "neg_scalar", "neg_vec", "neg_agg", "neg_pin", "pin", "pin_end", "pin_mix", "sum_pin", "time_plus",
-  "ps_top", "paren_scalar" >>
+  "ps_top", "paren_scalar",
+  \* a function next to other operands of the same query (what is set up for one operand must not reach the others)
+  "timestamp_plus", "plus_timestamp", "timestamp_clampps", "timestamp_minus_tsagg", "math_plus", "scalar_plus_vec",
+  \* vector <op> scalar with a scalar that differs from step to step
+  "vec_minus_time", "time_minus_vec", "vec_mul_ps", "vec_gtbool_time" >>
 
 PH(p) == FoldSet(LAMBDA u, acc : acc + (IF p[u] = "-" THEN 0 ELSE IF p[u] = "f" THEN u ELSE 5 * u), 0, 1..Period)
-Hash(x) == (x.n * 7 + (IF x.vp = "pos" THEN 1 ELSE 2) * 11 + x.lb * 13
+Hash(x) == (x.n * 7 + (IF x.vp = "pos" THEN 1 ELSE IF x.vp = "mixed" THEN 2 ELSE 3) * 11 + x.lb * 13
             + FoldSet(LAMBDA u, acc : acc + (IF x.p1[u] = "-" THEN 0 ELSE IF x.p1[u] = "f" THEN u + 1 ELSE 5 * (u + 1)), 0, 0..(Period - 1)) * 17
             + PH(x.p2) * 19)
 H(x) == Hash(x) \div Mod
@@ -121,6 +126,16 @@ PlanOf(x) ==
     [] sh = "time_plus"     -> B("+", TimeF, <<Num(1)>>)
     [] sh = "ps_top"        -> PS
     [] sh = "paren_scalar"  -> Over(B("-", TimeF, <<Num(2)>>), LAMBDA c : Paren(c))
+    [] sh = "timestamp_plus" -> B("+", F1("timestamp", M), M)
+    [] sh = "plus_timestamp" -> B("+", M, F1("timestamp", MX))
+    [] sh = "timestamp_clampps" -> F2("clamp_min", F1("timestamp", M), F1("scalar", Over(M, LAMBDA c : Agg("max", TRUE, <<>>, <<c>>))))
+    [] sh = "timestamp_minus_tsagg" -> B("-", F1("timestamp", M), F1("timestamp", SumA(M)))
+    [] sh = "math_plus"     -> B("+", F1(fn, M), M)
+    [] sh = "scalar_plus_vec" -> B("+", F1("scalar", MX), M)
+    [] sh = "vec_minus_time" -> B("-", M, TimeF)
+    [] sh = "time_minus_vec" -> B("-", TimeF, M)
+    [] sh = "vec_mul_ps"     -> B("*", M, PS)
+    [] sh = "vec_gtbool_time" -> Join(M, TimeF, LAMBDA a, b : BinM(">", a, b, TRUE, "1:1", FALSE, <<>>, <<>>))
 
 ScnOf(x) == Scn("fn", "C06", TickMs, Data(x), PlanOf(x), 1, IF x.n = 1 THEN 1 ELSE x.n, IF x.n = 1 THEN 0 ELSE 1, x.lb, 0)
 
